@@ -347,13 +347,10 @@ def emitNode (n : Node) (needsClose : Bool) (nextSib : Option Node) (g : G) (w :
       pure (twWriteStringLiteral g w (bs "-->\\n"))
   | .text t =>
     if t.typ == .dynamicText then .ok (dynamicValue g w t) else
-    let s := quoteBody t.lit
+    -- the line break that ends a :preserve line becomes an entity (decided on the text, not on its quoted form)
     let s :=
-      if t.typ == .preserveText then
-        let start := s.length
-        let s' := if hasSuffix s (bs "\\n") then s.take (s.length - 2) else s
-        s' ++ repeatStr (bs "&#x000A;") ((start - s'.length) / 2)
-      else s
+      if t.typ == .preserveText && hasSuffix t.lit [10] then quoteBody (t.lit.take (t.lit.length - 1)) ++ bs "&#x000A;"
+      else quoteBody t.lit
     if t.typ == .plainText || t.typ == .preserveText || w.isUnescaped then .ok (twWriteStringLiteral g w s)
     else .ok (twWriteStringLiteral g w (quoteBody (htmlEscape t.lit)))
   | .unescape _ _ kids => do
